@@ -36,8 +36,8 @@ M = [
                                       ("                        obj_real_path = object_info_dict.get(\"cid_object_path\")\n                        objects_to_delete.append(\n                            self._rename_path_for_deletion(obj_real_path)\n                        )", "                        objects_to_delete.append(obj_marked)")]),
  ("c11_docname_hash_pid_only_for_default", "C11", F, [("            metadata_document_name = self._computehash(pid + self.sysmeta_ns)\n        else:\n            metadata_document_name = self._computehash(pid + checked_format_id)", "            metadata_document_name = self._computehash(pid + self.sysmeta_ns)\n        else:\n            metadata_document_name = self._computehash(pid + checked_format_id.strip(\"/\"))")]),
  ("c11_delete_all_walks_first_shard", "C11", F, [("            metadata_rel_path = self._get_store_path(\"metadata\") / rel_path\n            metadata_file_paths = self._get_file_paths(metadata_rel_path)", "            metadata_rel_path = self._get_store_path(\"metadata\") / rel_path\n            metadata_file_paths = self._get_file_paths(metadata_rel_path)\n            if metadata_file_paths is not None and self.width == 1:\n                top = self._get_store_path(\"metadata\") / rel_path.parts[0]\n                metadata_file_paths = [Path(dp) / f for dp, _dn, fn in os.walk(top) for f in fn]")]),
- ("c13_swallow_after_move", "C13", F, [("                self._untag_object(pid, cid)\n                raise ue", "                self._untag_object(pid, cid)\n                if isinstance(ue, PermissionError):\n                    return\n                raise ue")]),
- ("c13_skip_untag", "C13", F, [("                self._untag_object(pid, cid)\n                raise ue", "                if not isinstance(ue, OSError):\n                    self._untag_object(pid, cid)\n                raise ue")]),
+ ("c13_swallow_after_move", "C13", F, [("                    self._untag_object(pid, cid)\n                raise ue", "                    self._untag_object(pid, cid)\n                if isinstance(ue, PermissionError):\n                    return\n                raise ue")]),
+ ("c13_skip_untag", "C13", F, [("                if not pid_already_tagged:\n                    self._untag_object(pid, cid)\n                raise ue", "                if not pid_already_tagged and not isinstance(ue, OSError):\n                    self._untag_object(pid, cid)\n                raise ue")]),
  ("c14_compare_depth_width_only", "C14", F, [("                    if hashstore_yaml_dict[key] != supplied_key:", "                    if hashstore_yaml_dict[key] != supplied_key and key != \"store_metadata_namespace\":")]),
  ("c14_dirs_before_verify", "C14", F, [("            self.hashstore_configuration_yaml = Path(prop_store_path) / \"hashstore.yaml\"\n            self._verify_hashstore_properties(properties, prop_store_path)", "            self.hashstore_configuration_yaml = Path(prop_store_path) / \"hashstore.yaml\"\n            if os.path.isdir(prop_store_path):\n                os.makedirs(Path(prop_store_path) / \"objects\" / \"tmp\", exist_ok=True)\n            self._verify_hashstore_properties(properties, prop_store_path)")]),
  ("c15_remainder_dropped_when_short", "C15", F, [("            + [checksum[self.depth * self.width :]]", "            + [checksum[self.depth * self.width :] if self.depth * self.width < 20 else checksum[self.depth * self.width + 1 :]]")]),
